@@ -99,6 +99,31 @@ func latticeEnvs(n int) []refEnv {
 	return out
 }
 
+// c12Points: NewEnvelope over a point list is the box of the points, whatever their order.
+func c12Points(r *engine.Run, pts []geom.XY) {
+	ref := refEnv{Empty: true}
+	fold := geom.Envelope{}
+	var flat []float64
+	for i, p := range pts {
+		flat = append(flat, p.X, p.Y)
+		if i == 0 {
+			ref = refEnv{false, p.X, p.Y, p.X, p.Y}
+		} else {
+			ref.X0, ref.Y0, ref.X1, ref.Y1 = math.Min(ref.X0, p.X), math.Min(ref.Y0, p.Y), math.Max(ref.X1, p.X), math.Max(ref.Y1, p.Y)
+		}
+		fold = fold.ExpandToIncludeXY(p)
+	}
+	r.Transitions.Add(2)
+	r.Evaluations.Add(1)
+	c := c12EnvCase{XY: flat}
+	if l := geom.NewEnvelope(pts...); !sameEnv(l, ref) {
+		r.Violation("C12/env.NewEnvelope.points", "envpts", c, envStr(l))
+	}
+	if !sameEnv(fold, ref) {
+		r.Violation("C12/env.ExpandToIncludeXY.fold", "envpts", c, envStr(fold))
+	}
+}
+
 func c12Unary(r *engine.Run, e refEnv) {
 	c := c12EnvCase{Envs: []refEnv{e}}
 	bad := func(m, d string) { r.Violation("C12/env."+m, "env1", c, d) }
@@ -541,6 +566,32 @@ func c12Main(r *engine.Run) {
 		}
 	}
 	r.Bound(fmt.Sprintf("env × XY: %d envelopes × %d² arguments", len(envs), len(args)))
+	// NewEnvelope from k points: every sequence of 0..4 points of the 3×3 lattice (thorough 0..5), in
+	// order (the extreme may be first, in the middle or last), against min/max and against the fold
+	// of ExpandToIncludeXY over the same points
+	{
+		maxK := 4
+		if r.Thorough() {
+			maxK = 5
+		}
+		var cnt int64
+		var rec func(pts []geom.XY)
+		rec = func(pts []geom.XY) {
+			c12Points(r, pts)
+			cnt++
+			if len(pts) == maxK {
+				return
+			}
+			for x := 0; x < 3; x++ {
+				for y := 0; y < 3; y++ {
+					rec(append(pts, geom.XY{X: float64(x), Y: float64(y)}))
+				}
+			}
+		}
+		rec(nil)
+		r.States.Add(cnt)
+		r.Bound(fmt.Sprintf("NewEnvelope(points...): all %d sequences of 0..%d points of the 3×3 lattice", cnt, maxK))
+	}
 	for _, a := range envs {
 		for _, b := range envs {
 			c12Pair(r, a, b)
@@ -637,12 +688,18 @@ func c12Main(r *engine.Run) {
 
 func c12Replay(r *engine.Run, sub string, raw json.RawMessage) error {
 	switch sub {
-	case "env1", "envxy", "env2", "env3":
+	case "env1", "envxy", "env2", "env3", "envpts":
 		var c c12EnvCase
 		if err := json.Unmarshal(raw, &c); err != nil {
 			return err
 		}
 		switch sub {
+		case "envpts":
+			var pts []geom.XY
+			for i := 0; i+1 < len(c.XY); i += 2 {
+				pts = append(pts, geom.XY{X: c.XY[i], Y: c.XY[i+1]})
+			}
+			c12Points(r, pts)
 		case "env1":
 			c12Unary(r, c.Envs[0])
 		case "envxy":
